@@ -10,6 +10,8 @@
                     it returns exist and bind get_veff; _CiderDF / Gradients aliases point at it
  grad-half          the weighted potential passed to _gga_grad_sum_ / _tau_grad_dot_ has its density row
                     (and tau row) halved exactly once on the way
+ grad-arglist-slots lcao_interpolation.py: a ctypes argument list whose slots a loop re-points with loop-dependent values
+                    is not passed to a call after that loop (it would carry the last iteration's tables)
  grad-xyz-slots     conv_interpolation.c (clang AST): in every routine the members of a declared x / y / z triple (ix,
                     iy, iz; dx, dy, dz; ...) are all used, integer slot indices equally often, and a 3-element
                     component table lists three distinct members
@@ -152,6 +154,169 @@ def rule_half(chk):
     ks.half_rule(chk, "grad-half", chk.tree, [(RKSG, n) for n in GRADS] + [(UKSG, n) for n in GRADS])
 
 
+# ----------------------------------------------------------------------------
+def _pyscf_dft_hierarchy():
+    """class name -> set of ancestor names, from the *source* of the installed pyscf.dft package (ast only; pyscf is
+    never imported)"""
+    import glob
+    cands = glob.glob("/venv/lib/python*/site-packages/pyscf/dft") + [
+        os.path.join(p_, "pyscf", "dft") for p_ in sys.path if p_ and os.path.isdir(os.path.join(p_, "pyscf", "dft"))]
+    if not cands:
+        raise core.AnalysisError("the installed pyscf source (pyscf/dft/*.py) was not found: the class hierarchy of the "
+                                 "Kohn-Sham classes cannot be read")
+    bases = {}
+    for fpath in sorted(glob.glob(os.path.join(cands[0], "*.py"))):
+        try:
+            with open(fpath, encoding="utf-8") as fh:
+                mod = ast.parse(fh.read())
+        except (OSError, SyntaxError):
+            continue
+        for n in mod.body:
+            if isinstance(n, ast.ClassDef):
+                bases.setdefault(n.name, set()).update(pf.src(b).split(".")[-1] for b in n.bases)
+    anc = {}
+
+    def ancestors(c, seen=()):
+        if c in anc:
+            return anc[c]
+        out = set()
+        for b in bases.get(c, ()):
+            if b not in seen:
+                out.add(b)
+                out |= ancestors(b, seen + (c,))
+        anc[c] = out
+        return out
+    return {c: ancestors(c) for c in bases}
+
+
+def rule_dispatch_classes(chk):
+    """each isinstance test of the dispatch accepts only classes the gradient module of its branch is written for:
+    <flavour>_grad serves <FLAVOUR> and its subclasses (pyscf hierarchy read from source); a base class shared with
+    unsupported flavours (KohnShamDFT, SCF, object) makes the final raise unreachable for them"""
+    fn = ks.locate(chk.tree, DFT, "_CiderKS.nuc_grad_method")[1]
+    fq = "_CiderKS.nuc_grad_method"
+    hier = _pyscf_dft_hierarchy()
+    n = 0
+    for st in pf.walk_no_nested(fn):
+        if not isinstance(st, ast.If):
+            continue
+        tests = [c for c in ast.walk(st.test) if isinstance(c, ast.Call) and pf.call_name(c) == "isinstance" and len(c.args) == 2]
+        if not tests:
+            continue
+        flav = set()
+        for b in st.body:
+            for x in ast.walk(b):
+                names = []
+                if isinstance(x, ast.ImportFrom):
+                    names = [a.name for a in x.names]
+                elif isinstance(x, ast.Name):
+                    names = [x.id]
+                for nm in names:
+                    if nm.endswith("_grad") and len(nm) > 5:
+                        flav.add(nm[:-5])
+        if len(flav) != 1:
+            continue  # not a branch that picks one gradient module
+        want = sorted(flav)[0].upper()
+        for t in tests:
+            cl = t.args[1].elts if isinstance(t.args[1], ast.Tuple) else [t.args[1]]
+            for c in cl:
+                cname = pf.src(c).split(".")[-1]
+                n += 1
+                inst = "%s:%s branch %s_grad accepts %s" % (DFT, fq, want.lower(), cname)
+                if cname not in hier:
+                    chk.ok("dispatch-total", inst + " (class not found in pyscf/dft: not decided)", nontrivial=False)
+                    chk.note("dispatch-total", "%s:%s" % (DFT, fq), "class %s is not defined in pyscf/dft/*.py" % pf.src(c))
+                elif cname == want or want in hier[cname]:
+                    chk.ok("dispatch-total", inst)
+                else:
+                    others = sorted(k for k, a in hier.items() if cname in a and k != want and want not in a
+                                    and "KohnShamDFT" in a)[:6]
+                    chk.violation("dispatch-total", DFT, fq, "isinstance(self, %s) -> %s_grad" % (pf.src(c), want.lower()),
+                                  t.lineno,
+                                  "the branch that returns the %s gradient classes accepts `%s`, which is not %s or a subclass "
+                                  "of it in pyscf's class hierarchy; %s is a base class of %s, so those objects get %s "
+                                  "gradients and the final `raise NotImplementedError` is unreachable for them" % (
+                                      want, pf.src(c), want, cname, ", ".join(others) or "other Kohn-Sham classes", want),
+                                  instance=inst)
+    if n == 0:
+        chk.ok("dispatch-total", "%s:%s dispatch does not use isinstance branches per gradient module (not decided)" % (DFT, fq),
+               nontrivial=False)
+
+
+LCAO_INTERP = "ciderpress/dft/lcao_interpolation.py"
+
+
+def rule_arglist_slots(chk):
+    """A ctypes argument list `args = [...]` whose slots a loop re-points (`args[k] = f(loop variable)`) must not be
+    passed to a call after that loop without the slots being set again: the call would use the tables of the last
+    iteration (the value routine's sibling calls come before the loop)."""
+    mod = chk.tree.py(LCAO_INTERP)
+    n_lists = 0
+    for fn in ast.walk(mod):
+        if not isinstance(fn, ast.FunctionDef):
+            continue
+        lists = {n.targets[0].id for n in pf.walk_no_nested(fn) if isinstance(n, ast.Assign) and len(n.targets) == 1
+                 and isinstance(n.targets[0], ast.Name) and isinstance(n.value, ast.List)}
+        used = {c.args[i].value.id for c in pf.walk_no_nested(fn) if isinstance(c, ast.Call)
+                for i in range(len(c.args)) if isinstance(c.args[i], ast.Starred) and isinstance(c.args[i].value, ast.Name)}
+        lists &= used
+        for L in sorted(lists):
+            n_lists += 1
+            bad = None
+            for lp in pf.walk_no_nested(fn):
+                if not isinstance(lp, (ast.For, ast.While)):
+                    continue
+                lvars = {x.id for x in ast.walk(lp.target) if isinstance(x, ast.Name)} if isinstance(lp, ast.For) else set()
+                changed = True
+                while changed:  # names computed from the loop variable inside the loop
+                    changed = False
+                    for a_ in ast.walk(lp):
+                        if isinstance(a_, ast.Assign) and len(a_.targets) == 1 and isinstance(a_.targets[0], ast.Name) \
+                                and a_.targets[0].id not in lvars and ks._names(a_.value) & lvars:
+                            lvars.add(a_.targets[0].id)
+                            changed = True
+                slots = {}
+                for a_ in ast.walk(lp):
+                    if isinstance(a_, ast.Assign) and len(a_.targets) == 1 and isinstance(a_.targets[0], ast.Subscript) \
+                            and isinstance(a_.targets[0].value, ast.Name) and a_.targets[0].value.id == L \
+                            and ks._names(a_.value) & lvars:
+                        slots[pf.src(a_.targets[0].slice)] = a_
+                if not slots:
+                    continue
+                par = pf.parent(lp)
+                blk = next((b for b in (getattr(par, "body", None), getattr(par, "orelse", None), getattr(par, "finalbody", None))
+                            if isinstance(b, list) and any(x is lp for x in b)), None)
+                if blk is None:
+                    continue
+                after = blk[[i for i, x in enumerate(blk) if x is lp][0] + 1:]
+                reset = set()
+                for st in after:
+                    for x in ast.walk(st):
+                        if isinstance(x, ast.Assign) and len(x.targets) == 1:
+                            t = x.targets[0]
+                            if isinstance(t, ast.Name) and t.id == L:
+                                reset |= set(slots)
+                            if isinstance(t, ast.Subscript) and isinstance(t.value, ast.Name) and t.value.id == L:
+                                reset.add(pf.src(t.slice))
+                        if isinstance(x, ast.Call) and any(isinstance(a_, ast.Starred) and isinstance(a_.value, ast.Name)
+                                                          and a_.value.id == L for a_ in x.args):
+                            stale = sorted(set(slots) - reset)
+                            if stale and bad is None:
+                                bad = (x, lp, stale, slots)
+            inst = "%s:%s argument list %s is not used after a loop that re-points its slots" % (LCAO_INTERP, pf.qualname(fn), L)
+            if bad is None:
+                chk.ok("grad-arglist-slots", inst)
+            else:
+                call, lp, stale, slots = bad
+                chk.violation("grad-arglist-slots", LCAO_INTERP, pf.qualname(fn), "%s after the loop over %s" % (
+                    pf.src(call)[:60], pf.src(lp.target) if isinstance(lp, ast.For) else "while"), call.lineno,
+                    "`%s` is evaluated after the loop `%s`, which re-points %s[%s] per iteration (e.g. `%s`): the call uses "
+                    "the tables left by the LAST iteration instead of the ones the list was built with" % (
+                        pf.src(call)[:60], batch.head_text(lp)[:60], L, "], %s[" % L if False else ", ".join(stale),
+                        pf.src(slots[stale[0]])[:80]), instance=inst)
+    chk.count("ctypes argument lists passed with *args in lcao_interpolation.py", n_lists)
+
+
 CONV_C = "mod_cider/conv_interpolation.c"
 
 
@@ -249,6 +414,7 @@ def _analyse_rules(chk):
     chk.rule("unsupported-raise", "SDMX / NLOF models raise NotImplementedError before any eval_xc_cider call")
     chk.rule("dispatch-total", "nuc_grad_method returns a matching Gradients class or raises on every path")
     chk.rule("grad-half", "density / tau rows of the weighted potential halved exactly once before the contraction")
+    chk.rule("grad-arglist-slots", "a *args list is not used after a loop that re-points its slots per iteration")
     chk.rule("grad-xyz-slots", "conv_interpolation.c: every member of an x/y/z slot triple is used (index slots equally often); tables list 3 distinct slots")
     chk.rule("grad-spin-mirror", "uks_grad: a statement addressing one literal spin slot has its alpha<->beta mirror image")
     chk.rule("grad-batch-index", "batch-index discipline on the gradient functions")
@@ -258,6 +424,9 @@ def _analyse_rules(chk):
     chk.guard(rule_batch)
     chk.guard(rule_spin_mirror)
     chk.guard(rule_xyz_slots)
+    chk.guard(rule_dispatch_classes)
+    chk.guard(rule_arglist_slots)
+    chk.floor("grad-arglist-slots", 1, "ctypes argument lists of the interpolator")
     chk.floor("grad-xyz-slots", 8, "x/y/z component triples of the l=1 / gradient routines")
     chk.floor("grad-spin-mirror", 6, "statements addressing one spin slot in the four UKS gradient functions")
     chk.floor("unsupported-raise", 8, "8 entry points x {SDMX, NLOF}")
@@ -327,9 +496,21 @@ def mutants(tree):
                "fac = f0_q[ig] * f1_q[iz];", "fac = f0_q[ig] * f1_q[iy];", expect="grad-xyz-slots"),
         Mutant("l=1 backward term reads the x slot twice (C)", "ciderpress/lib/mod_cider/conv_interpolation.c",
                "f_q[ig] += dz * f_q[iz];", "f_q[ig] += dz * f_q[ix];", count=2, expect="grad-xyz-slots"),
+        Mutant("RKS branch accepts every Kohn-Sham class", DFT, "if isinstance(self, dft.rks.RKS):",
+               "if isinstance(self, dft.rks.KohnShamDFT) and not isinstance(self, dft.uks.UKS):", expect="dispatch-total"),
+        Mutant("l=1 gradient block moved behind the derivative-table loop", LCAO_INTERP, "", "", fn=_l1_block_after_loop,
+               expect="grad-arglist-slots"),
         Mutant("stale batch index in gradient", RKSG, "        _gga_grad_sum_(vmat[idm], mol, ao, wv, mask, ao_loc)",
                "        _gga_grad_sum_(vmat[i], mol, ao, wv, mask, ao_loc)", expect="grad-batch-index"),
     ]
+
+
+def _l1_block_after_loop(text):
+    a = "                if self._n1 > 0:\n                    ftmp_gq[:] = 0\n                    fn(*args)\n                    self._call_l1_fill_grad(excsum, ftmp_gq, f_gq, a)\n"
+    b = "                    self._contract_grad_terms(excsum, ftmp, a, v)\n"
+    if a not in text or b not in text:
+        return None
+    return text.replace(a, "", 1).replace(b, b + a, 1)
 
 
 def _move_guard_after(text):
